@@ -27,6 +27,9 @@ type Act struct {
 	Sw  bool   `json:"sw"`
 	K   int    `json:"k,omitempty"`
 	Via string `json:"via,omitempty"`
+	// rendering attribute without meaning in the reference: the panic carries a nil value (recover()
+	// returns nil while the block is nevertheless unwinding)
+	NilV bool `json:"nilv,omitempty"`
 }
 
 func (a Act) JSON() hx.M {
@@ -184,6 +187,9 @@ func (x *interp) block(tx *gorm.DB) error {
 				}
 				return errBlock
 			case "panic":
+				if a.NilV {
+					panic(nil)
+				}
 				panic(thePanic)
 			}
 		default:
@@ -247,6 +253,7 @@ func (e *Env) Run(prog []Act) (r Result, ierr error) {
 	}
 	e.rec.SetRecording(true)
 	x := &interp{e: e, prog: prog}
+	completed := false
 	func() {
 		defer func() {
 			if v := recover(); v != nil {
@@ -256,10 +263,13 @@ func (e *Env) Run(prog []Act) (r Result, ierr error) {
 					r.Res = "panic_other"
 					r.Text = fmt.Sprint(v)
 				}
+			} else if !completed {
+				r.Res = "panic" // a panic with a nil value reached the caller
 			}
 		}()
 		if len(prog) == 0 {
 			r.Res = "none"
+			completed = true
 			return
 		}
 		switch prog[0].Op {
@@ -278,6 +288,7 @@ func (e *Env) Run(prog []Act) (r Result, ierr error) {
 		default:
 			ierr = fmt.Errorf("txn: program starts with %s", prog[0].Op)
 		}
+		completed = true
 	}()
 	e.rec.SetRecording(false)
 	rows, err := e.sql.Query("SELECT id FROM txrows ORDER BY id")
@@ -405,20 +416,40 @@ func replay(args []string) error {
 		if err := json.Unmarshal(lines[i], &c); err != nil {
 			return err
 		}
-		for k, e := range envs {
-			r, err, fresh := runGuarded(e, c.Prog)
-			if err != nil {
-				return fmt.Errorf("case %d: %v", i, err)
-			}
-			w.Emit(Event(i+1, e.cfg, c.Prog, r))
-			if fresh {
-				if envs[k], err = NewEnv(e.cfg); err != nil {
-					return err
+		progs := [][]Act{c.Prog}
+		if v, ok := nilPanicVariant(c.Prog); ok {
+			progs = append(progs, v)
+		}
+		for _, prog := range progs {
+			for k, e := range envs {
+				r, err, fresh := runGuarded(e, prog)
+				if err != nil {
+					return fmt.Errorf("case %d: %v", i, err)
+				}
+				w.Emit(Event(i+1, e.cfg, prog, r))
+				if fresh {
+					if envs[k], err = NewEnv(e.cfg); err != nil {
+						return err
+					}
 				}
 			}
 		}
 	}
 	return nil
+}
+
+// nilPanicVariant: the same program with every panic carrying a nil value (the reference does not
+// distinguish the two).
+func nilPanicVariant(prog []Act) ([]Act, bool) {
+	out := append([]Act{}, prog...)
+	any := false
+	for i := range out {
+		if out[i].Op == "exit" && out[i].Out == "panic" && !out[i].NilV {
+			out[i].NilV = true
+			any = true
+		}
+	}
+	return out, any
 }
 
 // runGuarded runs one program under a watchdog. A program that does not return within 30 s is
